@@ -13,7 +13,7 @@ for p in props:
     pid=p['id']
     if pid in CLAIMS and os.path.exists(f'/verif/harness/{pid}/spec.json'):
         c=CLAIMS[pid]
-        checks.append({"property_id":pid,"quick_cmd":f"bin/check {pid} quick","thorough_cmd":f"bin/check {pid} thorough","evidence_file":f"/verif/evidence/{pid}.json","replay_cmd_template":"cat {path}  # model file; re-run `bin/check "+pid+" quick` to rebuild and replay it natively","engine":"gosx","level_claimed":{"category":"model_checking","text":c['text'],"design_ref":c['ref']},"level_note":c['note'],"technique":TECH})
+        checks.append({"property_id":pid,"quick_cmd":f"bin/check {pid} quick","thorough_cmd":f"bin/check {pid} thorough","evidence_file":f"/verif/evidence/{pid}.json","replay_cmd_template":"cat {path}  # model file; re-run `bin/check "+pid+" quick` to rebuild and replay it natively","engine":"gosx","level_claimed":{"category":("other" if pid=="C10" else "model_checking"),"text":c['text'],"design_ref":c['ref']},"level_note":c['note'],"technique":TECH})
 na=[]
 NA=json.load(open('/verif/tools/not_applicable.json'))
 for p in props:
